@@ -32,11 +32,11 @@ _dec = ReadDecoder(_td)
 
 
 def lib_encode(tree):
-    return bytes(bytearray(_enc.protocolTreeNodeToBytes(T.to_node(tree))))
+    return bytes(bytearray(WriteEncoder(_td).protocolTreeNodeToBytes(T.to_node(tree))))
 
 
 def lib_decode(frame):
-    return T.from_node(_dec.getProtocolTreeNode(bytearray(frame)))
+    return T.from_node(ReadDecoder(_td).getProtocolTreeNode(bytearray(frame)))
 
 
 def selftest():
